@@ -227,6 +227,9 @@ func TestVerifHs13Timed(t *testing.T) {
 				if from == 0 {
 					sil = 300 * time.Second
 				}
+				if tm.nb { // constant interval: keep the number of expiries moderate
+					sil = []time.Duration{3500 * time.Millisecond, 12 * time.Second}[rng.intn(2)]
+				}
 				for vi, v := range variants {
 					if !vIsThorough() && vi >= 2 && (from+vi+len(to))%3 != 0 {
 						continue
@@ -236,6 +239,22 @@ func TestVerifHs13Timed(t *testing.T) {
 						Limit: sil + 400*time.Second,
 					}})
 				}
+			}
+		}
+	}
+	// reordering: every burst towards one side (or both) arrives in reverse order, alone and
+	// combined with a silence (stale records then arrive behind newer ones)
+	for _, to := range []string{"client", "server", "both"} {
+		for vi, v := range variants {
+			jobs = append(jobs, hs13Job{v, nil, hs13Opt{ReverseTo: to, Limit: 300 * time.Second}})
+			for _, from := range []int{2, 5, 7} {
+				if !vIsThorough() && (from+vi)%2 != 0 {
+					continue
+				}
+				sto := []string{"client", "server"}[(from+vi)%2]
+				jobs = append(jobs, hs13Job{v, nil, hs13Opt{
+					ReverseTo: to, SilenceFrom: from, SilenceUntil: 3500 * time.Millisecond, SilenceTo: sto, Limit: 300 * time.Second,
+				}})
 			}
 		}
 	}
@@ -256,7 +275,8 @@ func TestVerifHs13Timed(t *testing.T) {
 				m[j] = hs13Acts[1+rng.intn(len(hs13Acts)-1)]
 			}
 		}
-		jobs = append(jobs, hs13Job{v, m, hs13Opt{Interval: tm.iv, NoBackoff: tm.nb, Limit: 600 * time.Second}})
+		rev := []string{"", "", "client", "server", "both"}[rng.intn(5)]
+		jobs = append(jobs, hs13Job{v, m, hs13Opt{Interval: tm.iv, NoBackoff: tm.nb, ReverseTo: rev, Limit: 600 * time.Second}})
 	}
 	hs13RunJobs(t, jobs, "hs13-timed")
 }
